@@ -1307,9 +1307,19 @@ func stripParens(x ast.Expr) ast.Expr {
 				// parentheses protect enclosed composite literals
 				return false
 			case *ast.CompositeLit:
-				if isTypeName(x.Type) {
+				// (a literal without type starts with '{', like a block)
+				if x.Type == nil || isTypeName(x.Type) {
 					strip = false // do not strip parentheses
 				}
+				return false
+			case *ast.ComprehensionExpr:
+				if x.Tok == token.LBRACE { // {for k, v in m}
+					strip = false
+					return false
+				}
+			case *ast.LambdaExpr, *ast.LambdaExpr2:
+				// x => e {  would continue the lambda body
+				strip = false
 				return false
 			}
 			// in all other cases, keep inspecting
